@@ -113,6 +113,34 @@ class H:
         self.field(u, "_links")
         return u
 
+    # ---- checkpoints: a constructed pool of individuals + the class-level state after constructing it
+    def checkpoint(self, key, objs):
+        from .ae import _deepcopy_state
+        if not hasattr(self, "_cp"):
+            self._cp = {}
+        self._cp[key] = (self.w.take_snapshot(), [(o, {k: _deepcopy_state(v) for k, v in o.fields.items()}) for o in objs.values()], dict(objs))
+
+    def rollback(self, key):
+        """-> the pool of individuals in their freshly-constructed state, or None if not checkpointed."""
+        from .ae import _deepcopy_state
+        cp = getattr(self, "_cp", {}).get(key)
+        if cp is None:
+            return None
+        snap, objs, pool = cp
+        self.w.restore(snap)
+        w = self.w
+        w.steps = 0
+        w.depth = 0
+        w.events = []
+        w.alloc = []
+        if not w.exploring:
+            w.choices, w.choice_pos, w.choice_log = [], 0, []
+        for o, f in objs:
+            o.fields.clear()
+            for k, v in f.items():
+                o.fields[k] = _deepcopy_state(v)
+        return pool
+
     def settle(self):
         """Pre-state is built: allocation naming restarts, events are cleared."""
         self.w.alloc = []
